@@ -477,6 +477,54 @@ def run(ctx):
                   site=cbod.where(sites[0]) if sites else cbod.where())
     ctx.floor("C20-R8", "callers of pop_lexer_states", len(popc), 3)
 
+    # ------------------------------------------------------------------ R9 budgets are extended with saturating arithmetic
+    # Budgets default to "no limit" = usize::MAX (max_tokens_total, step_max_items, ...).  Adding to a budget, or adding a
+    # configured limit to a running counter, with the overflow-checked `+` panics in debug builds and wraps to a tiny
+    # budget in release builds (spurious MaxTokensTotal / "Too many items").  Such additions must be saturating / checked.
+    TPARSER = "llguidance::tokenparser::TokenParser"
+    LIMITS = "toktrie::ParserLimits"
+    lim_adt = next((a for a in P.adts if a.endswith("::ParserLimits")), None)
+    budget_fields = {(TPARSER, "max_tokens_total"), (PS, "max_all_items")}
+    # parameters that callers fill from a ParserLimits field
+    lim_params = set()
+    for i, b in P.bodies.items():
+        if not P._is_code(b) or not i.startswith("llguidance::"):
+            continue
+        for bi, t in b.calls():
+            d = t["f"].get("def")
+            if d in P.bodies and d.startswith("llguidance::"):
+                for k, a in enumerate(t["args"]):
+                    r_ = L.role(b, a, depth=8)
+                    if ".limits." in r_ or (lim_adt and any(f_[0] == lim_adt for f_ in (F.place_fields(F.op_place(a)) if F.op_place(a) else []))):
+                        lim_params.add((d, k + 1))
+    n_bud = 0
+    for i, b in sorted(P.bodies.items()):
+        if not P._is_code(b) or not i.startswith(("llguidance::tokenparser::", "llguidance::earley::parser::", "llguidance::constraint::", "llguidance::matcher::")):
+            continue
+        for bi in sorted(b.live_blocks()):
+            t = b.blocks[bi]["term"]
+            if not (t["t"] == "assert" and str(t["msg"]) in ("Overflow(Add)", "Overflow(Mul)")):
+                continue
+            for st in b.blocks[bi]["st"]:
+                if st["s"] == "assign" and st["r"].get("rv") == "bin" and st["r"]["op"].endswith("WithOverflow"):
+                    hits = []
+                    for o in (st["r"]["a"], st["r"]["b"]):
+                        pl = F.op_place(o)
+                        e = b.expr(o)
+                        fs = F.place_fields(e[1]) if e[0] in ("place", "ref") else []
+                        if fs and (fs[-1] in budget_fields or (lim_adt and fs[-1][0] == lim_adt)):
+                            hits.append("%s.%s" % (fs[-1][0].rsplit("::", 1)[1], fs[-1][1]))
+                        elif e[0] == "place" and len(e[1]) == 1 and (i, e[1][0]) in lim_params:
+                            hits.append("parameter `%s` (filled from ParserLimits by the callers)" % b.local_name(e[1][0]))
+                    if hits:
+                        n_bud += 1
+                        ctx.violation("C20-R9", "unchecked-budget-arithmetic:%s" % i.replace("llguidance::", ""),
+                                      "%s adds to / with the budget value %s using the overflow-checked `+`: with the default \"no limit\" value "
+                                      "(usize::MAX) a legal call panics in debug builds and wraps to a tiny budget in release builds"
+                                      % (i, ", ".join(hits)), site=b.where(bi))
+    if n_bud == 0:
+        ctx.ok("C20-R9", "budget-arithmetic", "no overflow-checked addition involves max_tokens_total / max_all_items / a ParserLimits value")
+
     # ------------------------------------------------------------------ R6 token id range checks
     vt = ctx.body(TP + "::validate_tokens_raw")
     work = vt.call_blocks("llguidance::earley::parser::Parser::validate_tokens")
